@@ -7,7 +7,7 @@
 From Coq Require Import List ZArith.
 From Coq.Strings Require Import Byte.
 From DRX Require Import Py.PyBytes Model.Riff Model.Index Model.Snd Model.Clut Model.Vwsc Model.Bitd
-  Proofs.FuelFacts Proofs.FuelFacts2.
+  Proofs.FuelFacts Proofs.FuelFacts2 Proofs.FuelFacts3.
 Import ListNotations.
 Open Scope Z_scope.
 
@@ -51,6 +51,19 @@ Proof. exact vwsc_file_terminates. Qed.
 (* the 8-bit PackBits loop consumes at least one byte of the stream per iteration *)
 Theorem C10_bitmap8 : forall f w0 h pw ph width, decode_compressed8 f w0 h pw ph width <> OutOfFuel.
 Proof. exact compressed8_terminates. Qed.
+(* the same for the 1-bit, 16-bit and 32-bit PackBits loops (every iteration consumes at least one byte of the stream)
+   and the plane de-interleaving that follows them: on every byte string and every geometry the decoders return a
+   bitmap or an ordinary error within [S (length f)] iterations - in particular on streams that end in a control byte
+   whose operand is missing (seed C10_i) *)
+Theorem C10_bitmap1 : forall f w0 h pw ph width, decode_compressed1 f w0 h pw ph width <> OutOfFuel.
+Proof. exact compressed1_terminates. Qed.
+Theorem C10_bitmap16 : forall f w h width, decode_compressed16 f w h width <> OutOfFuel.
+Proof. exact compressed16_terminates. Qed.
+Theorem C10_bitmap24 : forall f w h width, decode_compressed24 f w h width <> OutOfFuel.
+Proof. exact compressed24_terminates. Qed.
+Example C10_bitmap_dangling_control :      (* the input of seed C10_i: a literal of 4, then a run control byte with nothing after it *)
+  decode_compressed8 [x03; x01; x02; x03; x04; xfe] 4 4 0 0 4 = Ok ([x00; x00; x00; x00; x00; x00; x00; x00; x00; x00; x00; x00; x01; x02; x03; x04]).
+Proof. vm_compute. reflexivity. Qed.
 
 Print Assumptions C10_container_walk.
 Print Assumptions C10_locator.
@@ -66,3 +79,6 @@ Print Assumptions C10_sound_header.
 Print Assumptions C10_score_delta_progress.
 Print Assumptions C10_score.
 Print Assumptions C10_bitmap8.
+Print Assumptions C10_bitmap1.
+Print Assumptions C10_bitmap16.
+Print Assumptions C10_bitmap24.
